@@ -106,6 +106,13 @@ func concWorld(r *prng.Rand) drive.CWorld {
 		n := len(w.Tables[t].Symbols)
 		w.Views = append(w.Views, drive.CView{Table: t, MaxID: uint64(r.Intn(n + 4))})
 	}
+	for k := r.Intn(3); k > 0; k-- {
+		var sl []int
+		for j := r.Range(1, 3); j > 0; j-- {
+			sl = append(sl, r.Intn(len(w.Tables)))
+		}
+		w.Slices = append(w.Slices, sl)
+	}
 	if r.Chance(2, 3) {
 		// version skew: the shared catalog holds only a subset of the tables the streams were written against
 		w.CatTables = []int{}
@@ -119,6 +126,9 @@ func concWorld(r *prng.Rand) drive.CWorld {
 }
 
 func concImports(r *prng.Rand, w drive.CWorld) []int {
+	if len(w.Slices) > 0 && r.Chance(1, 3) {
+		return []int{drive.SliceRef - r.Intn(len(w.Slices))} // one of the shared slices, passed as it is
+	}
 	var out []int
 	for k := r.Intn(4); k > 0; k-- {
 		if len(w.Views) > 0 && r.Chance(1, 4) {
@@ -305,6 +315,21 @@ func concTask(r *prng.Rand, w drive.CWorld, cat *model.Catalog, typePool []int) 
 		o.NoSID = true
 		o.MaxDepth = r.Range(1, 4)
 		vals := gen.Sanitize(gen.Doc(r, o, 4))
+		if len(vals) > 0 && r.Chance(1, 6) {
+			// one value 17..70 containers deep (per-depth state of the writers, pretty-printer indentation)
+			v := vals[0]
+			for d := r.Range(17, 70); d > 0; d-- {
+				kind := []model.Kind{model.List, model.Sexp, model.Struct}[r.Intn(3)]
+				if kind == model.Struct {
+					v.Field = &model.Sym{Text: "a1", HasText: true}
+				} else {
+					v.Field = nil
+				}
+				v = model.NewSeq(kind, v)
+			}
+			v.Field = nil
+			vals[0] = v
+		}
 		// pull symbol texts toward the shared tables so that imports matter
 		texts := []string{"a1", "a4", "a8", "b1", "dup", "c12", "d2", "x", "zed"}
 		var fix func(v *model.Value)
